@@ -48,6 +48,15 @@ pub fn scene_spec(s: &mut Src, o: &GenOpts) -> Program {
             if s.chance(1, 8) {
                 c.meta.guid = None; // tolerated by the reader ("reference implementation allows to omit")
             }
+            if s.chance(1, 8) {
+                // a carriage return, written as a character reference by the encoder
+                let t = s.pick(&["Scan 1\r\nsecond line", "a\rb", "\r", "tail\r"]).to_string();
+                if s.flag() {
+                    c.meta.name = Some(t);
+                } else {
+                    c.meta.description = Some(t);
+                }
+            }
         }
     }
     p
